@@ -171,6 +171,11 @@ def trace_job(rep, known):
 def check_C13(rep, known):
     life_job(rep, [r'C13\.'], known)
     trace_job(rep, known)
+    # histories on multi-stage OCPs (set_value of a stage-level parameter and an edit after a transcription)
+    recs, st = tlc.generate('ScenStages', 'ScenStages.cfg', 'C12', rep.tier, rep.seed, parts=16)
+    recs = [r for r in recs if r['sc']['reset']]
+    outs = engine.pool_map('stages', 'replay', recs)
+    engine.process_results(rep, recs, outs, [r'C12\.(h|a|c)'], known)
 
 
 def check_C09(rep, known):
